@@ -106,6 +106,88 @@ seed("C06", "flag-before-start", "recording flag set although the wrapped start 
 seed("C06", "min-length-const-fps", "minimum length from a constant fps", ["C06.X2"],
      (TH, "minFrames := int64(minSeconds * camera.FPS())", "minFrames := int64(minSeconds * 9)"))
 
+LL = "loglimiter/loglimiter.go"
+# ---- C20
+seed("C20", "interval-inclusive", "suppression also exactly at the interval boundary", ["C20.G1"],
+     (LL, "now.Sub(limiter.previousTime) < limiter.interval", "now.Sub(limiter.previousTime) <= limiter.interval"))
+seed("C20", "or-instead-of-and", "suppress on same message OR within interval", ["C20.G1"],
+     (LL, "< limiter.interval && s == limiter.previousEntry", "< limiter.interval || s == limiter.previousEntry"))
+seed("C20", "suppressed-extends-window", "time updated when suppressing", ["C20.G3"],
+     (LL, "s == limiter.previousEntry {\n\t\treturn", "s == limiter.previousEntry {\n\t\tlimiter.previousTime = now\n\t\treturn"))
+seed("C20", "interval-one-second", "recorder builds the limiter with one second", ["C20.G5"],
+     (MP, "const minLogInterval = time.Minute", "const minLogInterval = time.Second"))
+seed("C20", "entry-not-remembered", "last entry not updated when printing", ["C20.G3"],
+     (LL, "\tlimiter.previousEntry = s\n", ""))
+seed("C20", "message-decorated", "printed message is decorated", ["C20.G2"],
+     (LL, "\tlog.Print(s)", "\tlog.Print(\"recorder: \" + s)"))
+
+MO = "motion/motion.go"
+# ---- C07
+seed("C07", "delta-inclusive", "pixel counted when diff >= delta", ["C07.K4"],
+     (MO, "\t\t\tif v > d.deltaThresh {", "\t\t\tif v >= d.deltaThresh {"))
+seed("C07", "count-strict", "motion only when count > count-thresh", ["C07.K4"],
+     (MO, "return deltaCount >= d.countThresh, deltaCount", "return deltaCount > d.countThresh, deltaCount"))
+seed("C07", "clamp-one-operand", "only the current frame is raised to temp-thresh in the abs kernel", ["C07.K2"],
+     (MO, "\t\t\tvb := b.Pix[y][x]\n\t\t\tif vb < d.tempThresh {\n\t\t\t\tvb = d.tempThresh\n\t\t\t}\n\t\t\tout.Pix[y][x] = absDiff(va, vb)", "\t\t\tvb := b.Pix[y][x]\n\t\t\tout.Pix[y][x] = absDiff(va, vb)"))
+seed("C07", "compare-gap-off-by-one", "comparison ring holds only frame-compare-gap frames", ["C07.K5"],
+     (MO, "NewFrameLoop(args.FrameCompareGap+1, camera)", "NewFrameLoop(args.FrameCompareGap, camera)"))
+seed("C07", "two-diff-or", "two-diff test uses OR", ["C07.K4"],
+     (MO, "(v1 > d.deltaThresh) && (v2 > d.deltaThresh)", "(v1 > d.deltaThresh) || (v2 > d.deltaThresh)"))
+seed("C07", "warmer-uses-abs", "warmer-only computes the absolute difference", ["C07.K2", "C07.K3"],
+     (MO, "out.Pix[y][x] = warmerDiff(va, vb)", "out.Pix[y][x] = absDiff(va, vb)"))
+seed("C07", "first-frame-verdict", "first comparison already produces a verdict", ["C07.K6", "C07.F1"],
+     (MO, "\tif !d.firstDiff {\n\t\td.firstDiff = true\n\t\treturn false, 0\n\t}\n", "\td.firstDiff = true\n"))
+seed("C07", "diff-in-uint16", "difference computed in uint16 (wraps)", ["C07.K3", "C07.K2"],
+     (MO, "func warmerDiff(a, b uint16) uint16 {\n\td := int32(a) - int32(b)\n\n\tif d < 0 {\n\t\treturn 0\n\t}\n\treturn uint16(d)", "func warmerDiff(a, b uint16) uint16 {\n\td := a - b\n\n\tif a < b {\n\t\treturn 0\n\t}\n\treturn d"))
+# ---- C08
+seed("C08", "count-includes-border-rows", "counting loop starts at row 0", ["C08.N1"],
+     (MO, "\tvar deltaCount int\n\tfor y := d.start; y < d.rowStop; y++ {\n\t\tfor x := d.start; x < d.columnStop; x++ {\n\t\t\tv := f1.Pix[y][x]", "\tvar deltaCount int\n\tfor y := 0; y < d.rowStop; y++ {\n\t\tfor x := d.start; x < d.columnStop; x++ {\n\t\t\tv := f1.Pix[y][x]"))
+seed("C08", "neighbour-read", "difference reads the left neighbour (border column for x = start)", ["C08.N1"],
+     (MO, "\t\t\tvb := b.Pix[y][x]\n\t\t\tif vb < d.tempThresh {\n\t\t\t\tvb = d.tempThresh\n\t\t\t}\n\t\t\tout.Pix[y][x] = absDiff(va, vb)", "\t\t\tvb := b.Pix[y][x-1]\n\t\t\tif vb < d.tempThresh {\n\t\t\t\tvb = d.tempThresh\n\t\t\t}\n\t\t\tout.Pix[y][x] = absDiff(va, vb)"))
+seed("C08", "unclamped-operand", "unclamped pixel used in the difference", ["C08.N4"],
+     (MO, "out.Pix[y][x] = absDiff(va, vb)", "out.Pix[y][x] = absDiff(a.Pix[y][x], vb)"))
+seed("C08", "border-from-input-border", "background border seeded from the input's border pixel", ["C08.N3", "C08.N1"],
+     (MO, "d.background.Pix[y][x] = new_frame.Pix[y][d.start]", "d.background.Pix[y][x] = new_frame.Pix[y][x]"))
+seed("C08", "background-without-dynamic", "background updated with a fixed threshold too", ["C08.N5"],
+     (MO, "if d.dynamicThresh && !d.affectedByFCC {", "if !d.affectedByFCC {"))
+seed("C08", "wide-seed-copy", "seed copies whole rows of the input", ["C08.N2"],
+     (MO, "copy(d.background.Pix[y][d.start:d.columnStop], new_frame.Pix[y][d.start:d.columnStop])", "copy(d.background.Pix[y], new_frame.Pix[y])"))
+# ---- C09
+seed("C09", "only-current-ffc", "frame directly after the FFC period is compared", ["C09.F1", "C09.F3"],
+     (MO, "if isAffectedByFFC(frame) || prevFFC {", "if isAffectedByFFC(frame) {"))
+seed("C09", "ffc-period-1s", "FFC period shortened to 1 s", ["C09.F2"],
+     (MO, "const ffcPeriod = 10 * time.Second", "const ffcPeriod = 1 * time.Second"))
+seed("C09", "ffc-inclusive", "FFC period test inclusive", ["C09.F2"],
+     (MO, "f.Status.TimeOn-f.Status.LastFFCTime < ffcPeriod", "f.Status.TimeOn-f.Status.LastFFCTime <= ffcPeriod"))
+seed("C09", "no-remark-after-ffc", "comparison ring not re-marked on FFC", ["C09.F3"],
+     (MO, "\t\td.flooredFrames.SetAsOldest()\n", ""))
+seed("C09", "reset-without-detector", "camera reset does not reset the detector", ["C09.F5"],
+     (MP, "\tmp.motionDetector.Reset(camera)\n", ""))
+seed("C09", "reset-keeps-compare-ring", "detector reset keeps the comparison history", ["C09.F5"],
+     (MO, "\td.flooredFrames.Reset()\n", ""))
+seed("C09", "prev-after-store", "previous FFC state read after it was overwritten", ["C09.F1"],
+     (MO, "\tprevFFC := d.affectedByFCC\n\td.affectedByFCC = isAffectedByFFC(frame)", "\td.affectedByFCC = isAffectedByFFC(frame)\n\tprevFFC := d.affectedByFCC"))
+seed("C09", "background-during-ffc", "background updated during FFC", ["C09.F4"],
+     (MO, "if d.dynamicThresh && !d.affectedByFCC {", "if d.dynamicThresh {"))
+# ---- C15
+seed("C15", "min-ignored-with-max", "regression of fix 23ba4d9", ["C15.A1"],
+     (MO, "\tif d.tempThreshMax != 0 {\n\t\tbackAverage = math.Min(backAverage, float64(d.tempThreshMax))", "\tif d.tempThreshMax != 0 {\n\t\tbackAverage = math.Min(orig, float64(d.tempThreshMax))"),
+     (MO, "func (d *motionDetector) calculateThreshold(backAverage float64) {\n", "func (d *motionDetector) calculateThreshold(backAverage float64) {\n\torig := backAverage\n"))
+seed("C15", "seed-mean-zero", "regression of fix efec66d", ["C15.A2"],
+     (MO, "\t\treturn average, true\n\t}\n\n\tvar changed bool = false", "\t\treturn 0, true\n\t}\n\n\tvar changed bool = false"))
+seed("C15", "bounds-swapped", "max applied as lower bound and min as upper bound", ["C15.A1"],
+     (MO, "backAverage = math.Max(backAverage, float64(d.tempThreshMin))", "backAverage = math.Min(backAverage, float64(d.tempThreshMin))"))
+seed("C15", "mean-over-whole-frame", "mean accumulated over all columns", ["C15.A2", "C15.A3", "C15.A5"],
+     (MO, "\tfor y := d.start; y < d.rowStop; y++ {\n\t\tfor x := d.start; x < d.columnStop; x++ {\n\t\t\tweight := d.backgroundWeight[y][x]", "\tfor y := d.start; y < d.rowStop; y++ {\n\t\tfor x := 0; x < d.columnStop; x++ {\n\t\t\tweight := d.backgroundWeight[y][x]"))
+seed("C15", "no-reseed-after-ffc", "background not re-seeded after FFC", ["C15.A4"],
+     (MO, "if prevFFC || (float32(new_frame.Pix[y][x])-weight) < float32(d.background.Pix[y][x]) {", "if (float32(new_frame.Pix[y][x]) - weight) < float32(d.background.Pix[y][x]) {"))
+seed("C15", "stale-threshold-stored", "recording stores the configured threshold instead of the current one", ["C15.A6"],
+     (MP, "mp.recorder.StartRecording(mp.motionDetector.background, mp.motionDetector.tempThresh)", "mp.recorder.StartRecording(mp.motionDetector.background, mp.motionDetector.tempThreshMin)"))
+seed("C15", "envelope-raises", "background raised immediately", ["C15.A5"],
+     (MO, "(float32(new_frame.Pix[y][x])-weight) < float32(d.background.Pix[y][x])", "(float32(new_frame.Pix[y][x])-weight) > float32(d.background.Pix[y][x])"))
+seed("C15", "numpixels-whole-frame", "mean divided by the whole frame's pixel count", ["C15.A2"],
+     (MO, "d.numPixels = float64((d.rowStop - d.start) * (d.columnStop - d.start))", "d.numPixels = float64(camera.ResY() * camera.ResX())"))
+
 here = os.path.dirname(os.path.abspath(__file__))
 for pid, name, d in S:
     os.makedirs(os.path.join(here, pid), exist_ok=True)
